@@ -28,6 +28,8 @@ fn directed(path: u32, out: &mut Outcome) -> Result<(), String> {
         let (mode, cap) = match path {
             0..=3 => (UNIFORM, 0usize),
             4..=9 => (CONSTANT, 64),
+            12 | 13 => (ALLHIGH, 64),
+            14 => (MODGROUPS, 64),
             _ => (SPLITTING, 64),
         };
         let map = Map::with_capacity_and_hasher(cap, HB::new(mode)).with_collector(seize::Collector::new().batch_size(if path % 2 == 0 { 1 } else { 120 }));
@@ -157,6 +159,42 @@ fn directed(path: u32, out: &mut Outcome) -> Result<(), String> {
                     api.remove(k);
                 }
             }
+            12 => {
+                name = "tree bin moving unsplit to the high half (twice), then on";
+                for k in 0..12 {
+                    ins(k);
+                }
+                api.reserve(60);
+                for k in 0..12 {
+                    ins(k);
+                }
+                api.reserve(150);
+                api.remove(3);
+            }
+            13 => {
+                name = "list bin moving unsplit to the high half, treeified there, moved on";
+                for k in 0..5 {
+                    ins(k);
+                }
+                api.reserve(60);
+                for k in 5..14 {
+                    ins(k);
+                }
+                api.reserve(300);
+            }
+            14 => {
+                name = "tree bin of five groups of equal hashes: replace, remove every other key, grow";
+                for k in 0..30 {
+                    ins(k);
+                }
+                for k in 0..30 {
+                    ins(k);
+                }
+                for k in (0..30).step_by(2) {
+                    api.remove(k);
+                }
+                api.reserve(200);
+            }
             _ => {
                 name = "tree split followed by compute and replacement in the new bins, drop right after a multi-step resize";
                 for k in 0..40 {
@@ -196,7 +234,7 @@ pub fn run(ctx: &Ctx) -> Outcome {
     hook::install();
     install_panic_capture();
     if ctx.shard == 0 {
-        for p in 0..12u32 {
+        for p in 0..15u32 {
             out.evaluations += 1;
             out.add("directed_paths_run", 1);
             out.distinct.insert(fnv(FNV_OFFSET ^ 0x04, p as u64));
